@@ -6,15 +6,20 @@
 (*    graphemes; Orig = TRUE is the code as found (count not refreshed by   *)
 (*    deletions), Orig = FALSE the repaired code.  Conform compares what    *)
 (*    is observable: the value and the drawn cursor column.                 *)
+(*    A paste arrives as one key event per pasted character; PasteExec =    *)
+(*    TRUE is the code as found (a pasted control character runs through    *)
+(*    the key bindings: a carriage return submits), FALSE the repaired code *)
+(*    (it is ignored).  The oracle allows several outcomes of such a paste: *)
+(*    the oracle state follows the one the transcription matches, if any.   *)
 (*  - the text input's word motions and word deletion (index loops with     *)
 (*    clamping) on every (text, cursor) reached, against BackWord/ForwWord. *)
 (* ASSUMEs are unit checks of the oracle.  A violation here is a candidate  *)
 (* scenario, not a verdict about the code.                                  *)
 EXTENDS LineEdit, Integers, TLC
-CONSTANTS MaxSteps, MaxLen, Orig
+CONSTANTS MaxSteps, MaxLen, Orig, PasteExec
 
-\* grapheme 1: narrow letter, 2: wide letter, 3: blank, 4: hyphen
-Tab == << <<1, 1>>, <<2, 1>>, <<1, 0>>, <<1, 2>> >>
+\* grapheme 1: narrow letter, 2: wide letter, 3: blank, 4: hyphen, 5: carriage return (cannot be displayed)
+Tab == << <<1, 1>>, <<2, 1>>, <<1, 0>>, <<1, 2>>, <<0, 3>> >>
 Cfg == [enter |-> "clear", pw |-> 0]
 
 VARIABLES ed, tf, steps
@@ -26,13 +31,14 @@ Cmds ==
   \cup {Cmd(k, "key", <<>>, 0) : k \in {"left", "right", "home", "end", "bs", "del", "killeol", "enter"}}
   \cup {Cmd("goto", "call", <<>>, j) : j \in 0..(MaxLen + 1)}
   \cup {Cmd("reset", "call", <<>>, 0)}
+  \cup {Cmd("pastectl", "key", <<1, 5>>, 0), Cmd("pastectl", "key", <<5, 2>>, 0)}
 
 \* ---- text field as implemented -------------------------------------------
 Min2(a, b) == IF a < b THEN a ELSE b
 TF(v, c, n) == [val |-> v, cur |-> c, n |-> n]
 Count(tf2) == IF Orig THEN tf2.n ELSE Len(tf2.val)     \* what deletions leave in n
 CursorTo(t, i) == [t EXCEPT !.cur = Min2(i, t.n)]
-Impl(t, op) ==
+ImplKey(t, op) ==
   LET v == t.val  c == t.cur  len == Len(t.val) IN
   CASE op.k = "ins" -> LET v2 == Ins(v, Min2(c, len), op.gs) IN TF(v2, c + Len(op.gs), Len(v2))
     [] op.k = "home" -> CursorTo(t, 0)
@@ -49,21 +55,31 @@ Impl(t, op) ==
     [] op.k = "killeol" -> IF c = t.n THEN t
                            ELSE LET t2 == TF(SubSeq(v, 1, Min2(c, len)), c, t.n) IN [t2 EXCEPT !.n = Count(t2)]
     [] op.k \in {"enter", "reset"} -> TF(<<>>, 0, 0)
+\* a paste: one key event per character; the carriage return is the key the decoder reports for it
+RECURSIVE ImplPaste(_, _)
+ImplPaste(t, gs) ==
+  IF gs = <<>> THEN t
+  ELSE LET t2 == IF Cls(Tab, Head(gs)) # 3 THEN ImplKey(t, Cmd("ins", "key", <<Head(gs)>>, 0))
+                 ELSE IF PasteExec THEN ImplKey(t, Cmd("enter", "key", <<>>, 0)) ELSE t
+       IN ImplPaste(t2, Tail(gs))
+Impl(t, op) == IF op.k = "pastectl" THEN ImplPaste(t, op.gs) ELSE ImplKey(t, op)
 ImplCol(t) == WidthOf(Tab, SubSeq(t.val, 1, Min2(t.cur, Len(t.val))))
 
+Obs(s, t) == t.val = s.text /\ ImplCol(t) = WidthOf(Tab, SubSeq(s.text, 1, s.cur))
 Init == ed = Empty /\ tf = TF(<<>>, 0, 0) /\ steps = 0
 Step ==
   /\ steps < MaxSteps
   /\ steps' = steps + 1
   /\ \E op \in Cmds :
-       /\ (op.k = "ins" => Len(ed.text) < MaxLen)
-       /\ ed' \in Next(Tab, Cfg, ed, op)
+       /\ Len(ed.text) + Len(op.gs) <= MaxLen
        /\ tf' = Impl(tf, op)
+       /\ LET m == {s \in Next(Tab, Cfg, ed, op) : Obs(s, Impl(tf, op))} IN
+            IF m # {} THEN ed' \in m ELSE ed' \in Next(Tab, Cfg, ed, op)
 Spec == Init /\ [][Step]_vars
 
 CursorInside == Inv(ed)
 View == <<ed, tf>>
-Conform == tf.val = ed.text /\ ImplCol(tf) = WidthOf(Tab, SubSeq(ed.text, 1, ed.cur))
+Conform == Obs(ed, tf)
 
 \* ---- text input word commands as implemented ------------------------------
 Alnum(t, i0) == i0 >= 0 /\ i0 < Len(t) /\ Cls(Tab, t[i0 + 1]) = 1     \* 0-based index
@@ -107,5 +123,16 @@ ASSUME Next(Tab, Cfg, Ed(<<1, 2>>, 1), Cmd("killbol", "key", <<>>, 0)) = {Ed(<<2
 ASSUME ChangeOK(Ed(<<1>>, 1), Ed(<<1, 2, 3>>, 3), Cmd("paste", "key", <<2, 3>>, 0), <<<<1, 2>>, <<1, 2, 3>>>>)
 ASSUME ~ChangeOK(Ed(<<1>>, 1), Ed(<<1, 2, 3>>, 3), Cmd("paste", "key", <<2, 3>>, 0), <<<<1, 2, 3>>>>)
 ASSUME ~ChangeOK(Ed(<<1>>, 1), Ed(<<1>>, 0), Cmd("left", "key", <<>>, 0), <<<<1>>>>)
+\* pasted text is inserted; a character that cannot be displayed may be dropped, nothing else happens
+ASSUME Next(Tab, Cfg, Ed(<<1, 2>>, 1), Cmd("pastectl", "key", <<4, 5, 3>>, 0)) = {Ed(<<1, 4, 5, 3, 2>>, 4), Ed(<<1, 4, 3, 2>>, 3)}
+ASSUME Kept(Tab, <<5, 1, 5>>) = {<<5, 1, 5>>, <<1, 5>>, <<5, 1>>, <<1>>} /\ Kept(Tab, <<1, 2>>) = {<<1, 2>>}
+ASSUME ChangeOK(Ed(<<1>>, 1), Ed(<<1, 2, 3>>, 3), Cmd("pastectl", "key", <<2, 5, 3>>, 0), <<<<1, 2>>, <<1, 2, 3>>>>)
+ASSUME ~ChangeOK(Ed(<<1>>, 1), Ed(<<1, 2, 3>>, 3), Cmd("pastectl", "key", <<2, 5, 3>>, 0), <<<<1, 2>>, <<1, 2>>, <<1, 2, 3>>>>)
+ASSUME ~SubmitOK(Ed(<<1>>, 1), Cmd("pastectl", "key", <<5>>, 0), <<<<1>>>>) /\ SubmitOK(Ed(<<1>>, 1), Cmd("pastectl", "key", <<5>>, 0), <<>>)
+\* text joining the cluster before the cursor (here: 2 = 1 + a mark): no new grapheme, the cursor stays
+ASSUME Next(Tab, Cfg, Ed(<<4, 1, 3>>, 2), Cmd("insjoin", "key", <<2>>, 1)) = {Ed(<<4, 2, 3>>, 2)}
+ASSUME Next(Tab, Cfg, Ed(<<4, 1, 3>>, 2), Cmd("pastejoin", "key", <<2, 4, 4>>, 1)) = {Ed(<<4, 2, 4, 4, 3>>, 4)}
+ASSUME ChangeOK(Ed(<<4, 1, 3>>, 2), Ed(<<4, 2, 4, 3>>, 3), Cmd("pastejoin", "key", <<2, 4>>, 1), <<<<4, 2, 3>>, <<4, 2, 4, 3>>>>)
+ASSUME ~ColOK(Tab, Cfg, Ed(<<1, 2>>, 2), 9, 0) /\ ColOK(Tab, Cfg, Ed(<<1, 5, 2>>, 3), 9, 0)
 ASSUME ColOK(Tab, Cfg, Ed(<<1, 2>>, 2), 4, 3) /\ ~ColOK(Tab, Cfg, Ed(<<1, 2>>, 2), 4, 2) /\ ColOK(Tab, Cfg, Ed(<<1, 2>>, 2), 3, 0)
 =============================================================================
